@@ -19,7 +19,7 @@ PROPS = {
     "C03": {
         "title": "Workflow precedence and data-transfer waits are respected",
         "lean": ["TopsimProps.C03", "TopsimProofs.Bridge.Runtime", "TopsimProps.C03Traj", "TopsimProps.L3Order"],
-        "streams": [("default", 40, 600), ("contended", 16, 300), ("big", 6, 80), ("units", 8, 100)],
+        "streams": [("default", 40, 600), ("contended", 16, 300), ("big", 6, 80), ("units", 8, 100), ("batch", 24, 300)],
         "direct": ["c06"],
         "monitor": ["C03"],
     },
@@ -31,7 +31,7 @@ PROPS = {
     },
     "C05": {
         "title": "Every feasible configuration terminates",
-        "lean": ["TopsimProps.C05", "TopsimProofs.Bridge.Admission", "TopsimProofs.Bridge.BufferArith", "TopsimProofs.Bridge.Sched"],
+        "lean": ["TopsimProps.C05", "TopsimProofs.Bridge.Admission", "TopsimProofs.Bridge.BufferArith", "TopsimProofs.Bridge.Sched", "TopsimProps.C05Live"],
         "streams": [("feasible", 40, 800), ("tiering", 16, 200), ("samestep", 12, 150), ("edge", 32, 600), ("hotwait", 12, 200)],
         "monitor": ["C05"],
     },
@@ -46,6 +46,7 @@ PROPS = {
         "title": "Buffer space is conserved and never over- or under-flows",
         "lean": ["TopsimProps.C07", "TopsimProofs.Bridge.BufferArith", "TopsimProofs.Bridge.TierArith", "TopsimProofs.Bridge.Sched", "TopsimProofs.Bridge.Admission", "TopsimProps.C07Traj"],
         "streams": [("default", 32, 500), ("sequential", 16, 200), ("overcommit", 8, 60), ("edge", 40, 400), ("hotwait", 8, 100), ("tiering", 8, 100), ("tierback", 8, 100)],
+        "direct": ["c18"],
         "monitor": ["C07"],
     },
     "C08": {
